@@ -37,6 +37,7 @@ let os (s : Model.string) : Stdlib.String.t =
   go s; Buffer.contents b
 
 let insts : (Stdlib.String.t, parent) Hashtbl.t = Hashtbl.create 64
+let labels : (Stdlib.String.t, Stdlib.String.t) Hashtbl.t = Hashtbl.create 64     (* node path -> its label *)
 let get path = match Hashtbl.find_opt insts path with Some p -> p | None -> empty_parent
 let drop_below prefix =
   let n = Stdlib.String.length prefix in
@@ -56,6 +57,7 @@ let tables () =
     (delete_table_ok structs goto_table free_sigs preamble dispatch_tail macro_shift macro_child not_deletable delete_table);
   Printf.printf "write_table_ok %b\n" (write_table_ok structs free_sigs write_table);
   Printf.printf "addr_tails_ok %b\n" (addr_tails_ok free_sigs addr_tails);
+  Printf.printf "sorting_ok %b\n" (sorting_ok sort_calls sort_comparator sort_names_callers);
   Stdlib.List.iter (fun b -> Printf.printf "bad_dblock %s\n" (os b)) (bad_dblocks structs free_sigs not_deletable goto_table delete_table);
   Stdlib.List.iter (fun b -> Printf.printf "bad_wrow %s\n" (os b)) (bad_wrows structs free_sigs write_table);
   Stdlib.List.iter (fun (f, h) -> Printf.printf "bad_nrow %s %s\n" (os f) (Stdlib.String.concat "_" (Stdlib.String.split_on_char ' ' (os h))))
@@ -79,24 +81,30 @@ let run () =
     let line = input_line stdin in
     let ws = Stdlib.List.filter (fun w -> w <> "") (Stdlib.String.split_on_char ' ' (Stdlib.String.trim line)) in
     (match ws with
-    | [("w" | "u") as c; path; _pl; label; name; p] ->
+    | [("w" | "u") as c; path; pl; label; name; p] ->
+        Hashtbl.replace labels path pl;
         let s = get path in
         let ((s', st), idx) = (if c = "w" then write else write_inplace) s (cs label) (cs name) (z_of_int (int_of_string p)) in
         Hashtbl.replace insts path s';
-        drop_below (join path name);
+        if c = "w" then drop_below (join path name);      (* re-created: the subtree is gone; rewritten in place: it stays *)
         let st = int_of_z st in
         Printf.printf "w %d %d\n" st (if st = 0 then int_of_z idx else 0)
     | ["d"; path; pl; name] ->
+        Hashtbl.replace labels path pl;
         let s = get path in
         let (s', st) = delete (disp_of delete_table not_deletable goto_table (cs pl)) s (cs name) in
         Hashtbl.replace insts path s';
         let st = int_of_z st in
         if st = 0 then drop_below (join path name);
         Printf.printf "d %d\n" (if st = 0 then 0 else 1)
-    | ["v"; path; _pl; label] -> show_view (view_session (get path) (cs label))
+    | ["v"; path; pl; label] ->
+        Hashtbl.replace labels path pl;
+        show_view (view_session (get path) (cs label))
     | "reopen" :: _ ->
         let keys = Hashtbl.fold (fun k _ acc -> k :: acc) insts [] in
-        Stdlib.List.iter (fun k -> Hashtbl.replace insts k (reopen (Hashtbl.find insts k))) keys;
+        Stdlib.List.iter (fun k ->
+            let pl = match Hashtbl.find_opt labels k with Some l -> l | None -> "" in
+            Hashtbl.replace insts k (reopen (cgns_sorted (cs pl)) (Hashtbl.find insts k))) keys;
         Printf.printf "o 0\n"
     | ["tables"] -> tables ()
     | _ -> ());
